@@ -9,6 +9,6 @@ class R:
     def touch(s,f): pass
     def ok(s,r,k,loc,t,**kw): R.c['ok']+=1; print("ok ",k.replace('convolution::',''),'::',t[:80])
     def bad(s,r,k,loc,t): R.c['bad']+=1; print("BAD",k,'::',t[:260])
-    def unk(s,r,k,loc,t): R.c['unk']+=1; print("unk",k.replace('convolution::',''),'::',t[:100])
+    def unk(s,r,k,loc,t): R.c['unk']+=1; print("unk",k.replace('convolution::',''),'::',t[:300])
 lanepair.stores(R(),progs.program("x86"),"r")
 print(R.c)
